@@ -29,7 +29,10 @@ type Cond struct {
 
 func (c *Cond) lambda() string { return fmt.Sprintf("lambda: \"%s\" %s %d", c.F, c.Op, c.K) }
 func (c *Cond) eval(f map[string]int64) bool {
-	v := f[c.F]
+	v, ok := f[c.F]
+	if !ok {
+		return false // the condition cannot be evaluated for this point: it does not hold
+	}
 	switch c.Op {
 	case ">":
 		return v > c.K
@@ -146,6 +149,11 @@ func gen(t *rapid.T) Case {
 		if style == 2 {
 			for _, f := range []string{"i", "w", "c", "ir", "wr", "cr"} {
 				p.F[f] = int64(rapid.IntRange(0, 1).Draw(t, f))
+			}
+			// a point may lack the field of one level condition: that condition cannot be evaluated
+			// (an error is reported) and does not hold; lower levels are still looked at
+			if m := rapid.IntRange(0, 9).Draw(t, "missing"); m < 3 {
+				delete(p.F, []string{"i", "w", "c"}[m])
 			}
 		} else {
 			p.F["v"] = base + int64(rapid.IntRange(-2, 14).Draw(t, "v"))
@@ -787,7 +795,7 @@ func fmtObs(obs []obsEvent) string {
 
 var assumptions = []string{
 	"events are observed by an alert.Handler registered on the alert's named topic; forwarded data by a log() sink below the alert node",
-	"level lambdas only reference integer fields that every point carries (evaluation errors are C05's subject)",
+	"level lambdas compare one integer field with a constant; in the independent-fields style a point may lack the field of one level condition: a condition that cannot be evaluated does not hold, the remaining levels are still considered (reset conditions always find their field)",
 	"batch alerts: the event time may be the time of any point that attains the event's level (OK/all(): the batch time or any point time) - the property does not fix the tie-break; when the implementation picks another accepted time than the reference, the rest of that history is not compared",
 	"flapping is checked by metamorphic relations only (events are a per-ID subsequence of the no-flapping events; forwarded levels equal the no-flapping levels) because its arithmetic is not part of the property statement; stateChangesOnly intervals are not combined with flapping",
 	"an empty batch produces no event and no state change (pipeline docs: alerts are evaluated on the points of a batch)",
